@@ -80,7 +80,14 @@ pub enum ReqBody {
     None,
     Sized(usize),
     Chunked(Vec<usize>),
+    /// not a request at all: `head_len` bytes that httparse rejects at the first byte (400 path)
+    Bad,
+    /// `Connection: upgrade` + `Upgrade: websocket`: handed to the upgrade service
+    Upgrade,
 }
+
+/// what the scripted upgrade service writes to the socket after the bytes it inherited
+pub const UPGRADE_MARKER: &[u8] = b"UPGRADED";
 
 #[derive(Clone, Debug)]
 pub struct Req {
@@ -121,6 +128,8 @@ pub struct Case {
 #[derive(Default, Debug)]
 pub struct Log {
     pub accepted: Vec<u8>,
+    /// the upgrade service was called
+    pub upgraded: bool,
     pub shutdown_calls: usize,
     pub shutdown_done: bool,
     /// per request: handler called
@@ -687,6 +696,32 @@ fn run_consumer_if_woken(world: &Shared, cflag: &Flag, cw: &Waker) -> bool {
 }
 
 // ---------------------------------------------------------------------------------------------
+// upgrade service: writes what it inherited + a marker, flushes, completes
+
+pub struct UpgradeFut {
+    io: Sock,
+    buf: Vec<u8>,
+    pos: usize,
+}
+
+impl Future for UpgradeFut {
+    type Output = Result<(), actix_http::Error>;
+
+    fn poll(mut self: Pin<&mut Self>, cx: &mut Context<'_>) -> Poll<Self::Output> {
+        let this = &mut *self;
+        while this.pos < this.buf.len() {
+            match Pin::new(&mut this.io).poll_write(cx, &this.buf[this.pos..]) {
+                Poll::Ready(Ok(0)) => return Poll::Ready(Err(PayloadError::Io(io::Error::new(io::ErrorKind::WriteZero, "")).into())),
+                Poll::Ready(Ok(n)) => this.pos += n,
+                Poll::Ready(Err(e)) => return Poll::Ready(Err(PayloadError::Io(e).into())),
+                Poll::Pending => return Poll::Pending,
+            }
+        }
+        Pin::new(&mut this.io).poll_flush(cx).map_err(|e| PayloadError::Io(e).into())
+    }
+}
+
+// ---------------------------------------------------------------------------------------------
 // wire
 
 pub fn hexlen(n: usize) -> usize {
@@ -699,12 +734,20 @@ pub fn min_head_len(i: usize, body: &ReqBody) -> usize {
 
 fn build_head(i: usize, body: &ReqBody, pad: usize) -> Vec<u8> {
     let mut h = Vec::new();
-    let m = if matches!(body, ReqBody::None) { "GET" } else { "POST" };
+    if matches!(body, ReqBody::Bad) {
+        // `@` is not a token character: httparse fails on the very first byte
+        h.push(b'@');
+        h.extend(std::iter::repeat(b'@').take(pad));
+        return h;
+    }
+    let m = if matches!(body, ReqBody::None | ReqBody::Upgrade) { "GET" } else { "POST" };
     h.extend_from_slice(format!("{} /{} HTTP/1.1\r\n", m, i).as_bytes());
     match body {
         ReqBody::None => {}
         ReqBody::Sized(n) => h.extend_from_slice(format!("content-length: {}\r\n", n).as_bytes()),
         ReqBody::Chunked(_) => h.extend_from_slice(b"transfer-encoding: chunked\r\n"),
+        ReqBody::Upgrade => h.extend_from_slice(b"connection: upgrade\r\nupgrade: websocket\r\n"),
+        ReqBody::Bad => {}
     }
     h.extend_from_slice(b"x: ");
     h.extend(std::iter::repeat(b'a').take(pad));
@@ -721,7 +764,7 @@ pub fn build_wire(reqs: &[Req]) -> Option<Vec<u8>> {
         }
         wire.extend(build_head(i, &r.body, r.head_len - min));
         match &r.body {
-            ReqBody::None => {}
+            ReqBody::None | ReqBody::Bad | ReqBody::Upgrade => {}
             ReqBody::Sized(n) => wire.extend((0..*n).map(|k| b'A' + (k % 23) as u8)),
             ReqBody::Chunked(cs) => {
                 for c in cs {
@@ -795,9 +838,9 @@ fn err_kind(e: &actix_http::error::DispatchError) -> String {
     match e {
         D::Service(_) => "service".into(),
         D::Body(_) => "body".into(),
-        D::Upgrade => "upgrade".into(),
+        D::Upgrade => "io:WriteZero".into(),
         D::Io(e) => format!("io:{:?}", e.kind()),
-        D::Parse(e) => format!("parse:{}", e).replace(' ', "_"),
+        D::Parse(_) => "parse".into(),
         D::H2(_) => "h2".into(),
         D::SlowRequestTimeout => "slow".into(),
         D::DisconnectTimeout => "disconnect-timeout".into(),
@@ -867,6 +910,17 @@ pub fn run_case_probe(case: &Case, probe_at: Option<usize>) -> Option<RunResult>
             .client_disconnect_timeout(Duration::from_secs(cfg.disc))
             .h1_allow_half_closed(cfg.half_closed)
             .h1_write_buffer_size(cfg.wbs.max(1))
+            .upgrade(fn_service({
+                let uw = world.clone();
+                move |(_req, framed): (Request, actix_codec::Framed<Sock, actix_http::h1::Codec>)| {
+                    uw.borrow_mut().log.upgraded = true;
+                    // the upgraded transport inherits the dispatcher's unflushed response bytes
+                    let parts = framed.into_parts();
+                    let mut buf = parts.write_buf.to_vec();
+                    buf.extend_from_slice(UPGRADE_MARKER);
+                    UpgradeFut { io: parts.io, buf, pos: 0 }
+                }
+            }))
             .h1(svc);
         let service = factory.new_service(()).await.expect("service");
         let fut = service.call((Sock(world.clone()), None));
